@@ -194,12 +194,21 @@ def dropPart (st : St) (n : String) : St :=
   | some id => { st with temp := st.temp.erase n, disk := st.disk.erase id, pkg := st.pkg.erase n }
   | none => { st with pkg := st.pkg.erase n }
 
+/-- the size guard of ReadZipReader, `fileSize < 0 || unzipSize < 0 || unzipSize > limit` after
+`unzipSize += fileSize`.  `declared` is `FileInfo().Size()` (negative when the entry declares
+2^63 bytes or more); the running total is kept as an exact integer: for int64-valued sizes and
+limits the wrapped test `unzipSize < 0 || unzipSize > limit` coincides with the exact
+`total > limit` (lemma `guard_wrap_exact`). -/
+def sizeGuard (l : Limits) (total : Int) (e : Entry) : Bool :=
+  (Facts.C12.sizeGuardRejectsNegative && decide (e.declared < 0)) ||
+    cmpOp Facts.C12.sizeGuardOp (total + e.declared) l.size
+
 /-- lib.go ReadZipReader: fold over the entries with the running declared total -/
 def readZip (l : Limits) : St → Int → Nat → List Entry → ZRes
   | st, _, ws, [] => .ok st ws
   | st, total, ws, e :: rest =>
     let total' := total + e.declared
-    if cmpOp Facts.C12.sizeGuardOp total' l.size then .sizeErr st else
+    if sizeGuard l total e then .sizeErr st else
     let fileName := normName e.name
     let ws' := if isSheet fileName then ws + 1 else ws
     let st0 := if Facts.C12.dupReplaces then dropPart st fileName else st
